@@ -51,28 +51,33 @@ def startNew : Want → List Client → List Client
   | [], cs => cs
   | (k, ch) :: w, cs => if hasKey cs k then startNew w cs else startNew w (cs ++ [⟨k, ch, false⟩])
 
-/-- Manager.scan (after the repair: no early return on an empty result) -/
-def scan (w : Want) (m : Mgr) : Mgr :=
+/-- the wanted placements whose client can be constructed; `bad` = the placements for which newClientState fails
+    (children not readable, or the node's points do not decode into the client's configuration) -/
+def startable (bad : List Key) (w : Want) : Want := w.filter (fun x => !bad.contains x.1)
+
+/-- Manager.scan (after the repairs: no early return on an empty result; a placement whose client cannot be
+    constructed is skipped — it is tried again at the next scan — instead of being started on a nil state) -/
+def scan (bad : List Key) (w : Want) (m : Mgr) : Mgr :=
   if m.stopping then m
   else
     let marked := m.clients.map (fun c => if w.any (fun x => x.1 == c.key) then c else { c with stopping := true })
-    { m with clients := startNew w marked }
+    { m with clients := startNew (startable bad w) marked }
 
 inductive Event where
-  | scan (w : Want)                 -- minute tick, or a node-type point seen on up.root.>
-  | trigger (k : Key)               -- the client's subscription saw a life-cycle edge point: cs.stop
-  | exited (k : Key) (w : Want)     -- the stopped client's Run returned: chDeleteCS, then rescan
-  | stop                            -- Manager.Stop
+  | scan (w : Want) (bad : List Key)             -- minute tick, or a node-type point seen on up.root.>
+  | trigger (k : Key)                            -- the client's subscription saw a life-cycle edge point: cs.stop
+  | exited (k : Key) (w : Want) (bad : List Key) -- the stopped client's Run returned: chDeleteCS, then rescan
+  | stop                                         -- Manager.Stop
 deriving Repr
 
 def step (m : Mgr) : Event → Mgr
-  | .scan w => if m.done then m else scan w m
+  | .scan w bad => if m.done then m else scan bad w m
   | .trigger k => { m with clients := m.clients.map (fun c => if c.key == k then { c with stopping := true } else c) }
-  | .exited k w =>
+  | .exited k w bad =>
     -- only a client that has been told to stop ever leaves (clientState.run waits for chStop)
     if m.clients.any (fun c => c.key == k && c.stopping) then
       let m' := { m with clients := m.clients.filter (fun c => !(c.key == k)) }
-      if m.stopping then { m' with done := m'.clients.isEmpty || m.done } else scan w m'
+      if m.stopping then { m' with done := m'.clients.isEmpty || m.done } else scan bad w m'
     else m
   | .stop =>
     { m with stopping := true, clients := m.clients.map (fun c => { c with stopping := true }),
